@@ -39,6 +39,21 @@ CLAIMED = {
         "note": "Does not decide that stored values equal the formulas' values. " + TRUST,
         "technique": "CFG must-pass-through and dominance + who-may-construct / who-may-write",
     },
+    "C06": {
+        "level": "Exhaustive static decision of the finite dispatch and comparison tables: operator node kinds -> the float operation "
+                 "in the closure they pass to handle_arithmetic; the comparison predicate interpreted for 6 operators x 3 signs; the "
+                 "25-cell kind x kind table of compare_values (antisymmetry, order, empty as neutral).",
+        "note": "Coercions, function results, error precedence with values and array broadcasting are numerical/runtime and not decided. " + TRUST,
+        "technique": "match-arm extraction + closure body inspection + finite-domain path interpretation",
+    },
+    "C07": {
+        "level": "Static decision of the two shape-visible sources of nondeterminism: who may read clock/random sources, and that every "
+                 "hash-map/set iteration reachable from evaluation, input, structural edits and (de)serialisation is order-insensitive "
+                 "by idiom or by a confirmed single-site reason.",
+        "note": "Convergence of the restart-based spill ordering and equality across reload are not decided. A new unclassified hash "
+                "iteration in reachable code is reported for triage (design 6). " + TRUST,
+        "technique": "who-may-call over the call graph + iterator-chain consumer classification",
+    },
     "C08": {
         "level": "Static decision of the property's own sink clause: every construction of a stored number (FormulaValue::Number, "
                  "SpillValue::Number, Cell::NumberCell) in both crates is a literal, a copy of a stored number, or dominated by a "
